@@ -75,8 +75,10 @@ def special_setitem(it, obj, key, v, node):
 
 # ------------------------------------------------------------------------------ typing / dataclasses / functools
 def _mod_typing(it, m):
-    for n in ('List', 'Dict', 'Any', 'Mapping', 'Optional', 'Tuple', 'Union', 'Iterable', 'Generator', 'Callable'):
+    for n in ('List', 'Dict', 'Any', 'Mapping', 'Optional', 'Tuple', 'Union', 'Iterable', 'Generator', 'Callable', 'Iterator', 'Sequence',
+              'Set', 'FrozenSet', 'Type', 'BinaryIO', 'IO', 'ClassVar', 'Final', 'Literal'):
         m.ns[n] = TypingAlias(n)
+    m.ns['NamedTuple'] = ClassVal('NamedTuple', m, 'namedtuple-base')
 
 
 def _mod_dataclasses(it, m):
@@ -137,6 +139,7 @@ def _mod_pathlib(it, m):
 def _mod_io(it, m):
     m.ns['IOBase'] = ClassVal('IOBase', m, 'plain')
     m.ns['BytesIO'] = ClassVal('BytesIO', m, 'plain')
+    m.ns['SEEK_SET'], m.ns['SEEK_CUR'], m.ns['SEEK_END'] = 0, 1, 2
 
 
 def _mod_json(it, m):
